@@ -11,6 +11,7 @@
     * the released signatures of a key are pairwise non-slashable / have pairwise different slots.
   Assumed: a store call that returned is durable (badger SyncWrites), badger recovers what it synced.
 -/
+import Dirk.Props.FactsResults
 import Dirk.Lemmas.Crash
 import Dirk.Props.FactsStore
 import Dirk.Spec.Slashing
